@@ -168,8 +168,14 @@ impl<'a> PhaseGen<'a> {
         match self.r.below(6) {
             0 if c.user_data => ops.push(Op::UserData { label: self.r.below(5) as u8, bytes: rand_bytes(self.r) }),
             1 | 2 => {
-                let lc = rand_lx(self.r, self.nh, c.depth, c.max_terms, c.edge_only, self.nchal);
-                ops.push(Op::Constrain { lc, fix: Fix::Balance });
+                if self.r.chance(1, 12) {
+                    // an empty linear combination constrained as it is (trivially satisfied row)
+                    let lc = if self.r.chance(1, 2) { Lx::Zero } else { Lx::Terms(vec![], self.r.chance(1, 2)) };
+                    ops.push(Op::Constrain { lc, fix: Fix::AsIs });
+                } else {
+                    let lc = rand_lx(self.r, self.nh, c.depth, c.max_terms, c.edge_only, self.nchal);
+                    ops.push(Op::Constrain { lc, fix: Fix::Balance });
+                }
             }
             3 if self.p2 && self.r.chance(1, 3) => {
                 ops.push(Op::Challenge { label: self.r.below(4) as u8 });
@@ -259,6 +265,16 @@ pub fn gen_program(seed: u64, c: &GenCfg) -> Program {
     let early = if c.late_commit { c.m / 2 } else { c.m };
     for _ in 0..early {
         ops.push(Op::Commit { v: rand_sc(&mut r, c.edge_only, 0), blind: rand_sc(&mut r, false, 0) });
+    }
+    // now and then a commitment is the identity point (value 0, blinding 0)
+    if early >= 1 && seed % 5 == 1 {
+        let pos = (seed / 5) as usize % early;
+        ops[pos] = Op::Commit { v: Sc::I(0), blind: Sc::I(0) };
+    }
+    // now and then the same opening is committed twice (two equal commitments in one statement)
+    if early >= 3 && seed % 4 == 0 {
+        let first = ops[0].clone();
+        ops[early - 1] = first;
     }
     let nh;
     {
@@ -355,6 +371,10 @@ pub fn corner_cfgs(max_gates: usize) -> Vec<(String, GenCfg)> {
     v.push(("twelve-commitments".into(), GenCfg { m: 12, q: 8, late_commit: true, ..s(3, 1) }));
     v.push(("sixteen-commitments-no-gates".into(), GenCfg { m: 16, q: 10, ..s(0, 0) }));
     v.push(("many-rows".into(), GenCfg { q: 40, max_terms: 10, ..s(4, 4) }));
+    v.push(("very-many-rows(>512)".into(), GenCfg { q: 270, depth: 1, max_terms: 3, ..s(2, 2) }));
+    v.push(("long-rows(>64 terms)".into(), GenCfg { q: 6, depth: 2, max_terms: 90, ..s(3, 2) }));
+    v.push(("very-long-rows(>256 terms)".into(), GenCfg { q: 3, depth: 1, max_terms: 300, ..s(2, 0) }));
+    v.push(("duplicate-commitments".into(), GenCfg { m: 4, ..s(2, 1) }));
     v
 }
 
